@@ -472,6 +472,9 @@ func (es *SearchEngineState) MATCHVAR(name string) {
 	} else if value.getType() == ValueHashMapType {
 		// TODO add syntax for indexing hash maps but also I want something a bit better than just failing here
 		es.BACKTRACK()
+	} else if len(value.String().Value) == 0 {
+		// a name bound to the empty text matches the empty text
+		es.NEXT()
 	} else {
 		es.MATCH(value.String().Value, false, false)
 	}
